@@ -649,7 +649,22 @@ fn tag(remote: bool) -> &'static str {
 /// `loaded <res>*`: every candidate alone through `load_symbol_map_from_location` (with the disambiguator
 /// `load_symbol_map` passes, lib.rs:334-339): `e` or `<breakpadId>,<tag>,<debug_file_location path>`.
 /// Not through `load_symbol_map`: its candidate loop is what the model describes.
+/// every non-source load of the oracle runs: the auxiliary files that belong to the library
+type Legit = BTreeSet<(Kind, String)>;
+
+fn note_loads(h: &RecHelper, legit: &mut Legit) {
+    for l in h.take_log() {
+        if l.kind != Kind::Source {
+            legit.insert((l.kind, l.path));
+        }
+    }
+}
+
 fn loaded_line(m: &ModuleSpec, cfg: &HelperCfg) -> String {
+    loaded_line_noting(m, cfg, &mut Legit::new())
+}
+
+fn loaded_line_noting(m: &ModuleSpec, cfg: &HelperCfg, legit: &mut Legit) -> String {
     let mut s = String::from("loaded");
     let id = DebugId::from_breakpad(&m.breakpad_id).ok();
     if cfg.direct {
@@ -666,6 +681,7 @@ fn loaded_line(m: &ModuleSpec, cfg: &HelperCfg) -> String {
         let loc = helper.cand_loc(i);
         let sm = SymbolManager::with_helper(helper);
         let r = futures::executor::block_on(sm.load_symbol_map_from_location(loc, id.map(MultiArchDisambiguator::DebugId)));
+        note_loads(&sm.helper(), legit);
         match r {
             Ok(map) => {
                 let dfl = map.debug_file_location();
@@ -693,6 +709,10 @@ fn winner_loc(loaded: &str, id: &str, policy: Policy) -> Option<Loc> {
 /// `SymbolMap::lookup` of each offset, every one on a FRESH symbol map of the winning candidate (what
 /// `/source/v1` does per request), obtained with `load_symbol_map_from_location` / the helper's own map
 fn direct_lookups(m: &ModuleSpec, cfg: &HelperCfg, loaded: &str, offsets: &[u32]) -> Vec<(String, Frames)> {
+    direct_lookups_noting(m, cfg, loaded, offsets, &mut Legit::new())
+}
+
+fn direct_lookups_noting(m: &ModuleSpec, cfg: &HelperCfg, loaded: &str, offsets: &[u32], legit: &mut Legit) -> Vec<(String, Frames)> {
     let win = winner_of(loaded, &m.breakpad_id);
     let id = DebugId::from_breakpad(&m.breakpad_id).ok();
     offsets
@@ -700,7 +720,7 @@ fn direct_lookups(m: &ModuleSpec, cfg: &HelperCfg, loaded: &str, offsets: &[u32]
         .map(|&o| {
             let helper = RecHelper::new(m.clone(), cfg.clone(), HashMap::new());
             let sm = SymbolManager::with_helper(helper);
-            futures::executor::block_on(async {
+            let r = futures::executor::block_on(async {
                 let map = match (win, cfg.direct, library_info(m)) {
                     (Some(_), true, Some(info)) => sm.load_symbol_map(&info).await.ok(),
                     (Some(i), false, _) => {
@@ -719,7 +739,9 @@ fn direct_lookups(m: &ModuleSpec, cfg: &HelperCfg, loaded: &str, offsets: &[u32]
                         },
                     },
                 }
-            })
+            });
+            note_loads(&sm.helper(), legit);
+            r
         })
         .collect()
 }
@@ -1644,8 +1666,9 @@ impl Prop for C09 {
         ));
 
         // the oracle lines must still describe the real code (stale corpus / replay files show up here)
-        let loaded = loaded_line(&m, &cfg);
-        let looks = direct_lookups(&m, &cfg, &loaded, &offsets);
+        let mut legit = Legit::new();
+        let loaded = loaded_line_noting(&m, &cfg, &mut legit);
+        let looks = direct_lookups_noting(&m, &cfg, &loaded, &offsets, &mut legit);
         if loaded != ops[2] || lookup_line(&offsets, &looks) != ops[3] {
             out.push("oracle-mismatch".to_string());
             stats.bump("oracle_mismatch");
@@ -1676,6 +1699,9 @@ impl Prop for C09 {
         let mut other_loads: BTreeMap<Kind, u64> = BTreeMap::new();
         for l in helper.take_log() {
             *other_loads.entry(l.kind).or_insert(0) += 1;
+            if l.kind != Kind::Source {
+                legit.insert((l.kind, l.path));
+            }
         }
 
         // `api` line per offset: the real to_api_file_path on the frames of the lookup line
@@ -1768,6 +1794,13 @@ impl Prop for C09 {
                     }
                 } else {
                     *other_loads.entry(l.kind).or_insert(0) += 1;
+                    // a load through another constructor (`location_for_external_object_file(requested)` …)
+                    // that the library's own symbol lookup never makes is reported: neither the model nor the
+                    // judge accepts such a token
+                    if !legit.contains(&(l.kind, l.path.clone())) {
+                        line.push_str(&format!(" x{:?},{}", l.kind, hx(&l.path)));
+                        stats.bump("unexpected_non_source_load");
+                    }
                 }
             }
             stats.bump(&format!("req_{}", w.get(3).copied().unwrap_or(w[0])));
